@@ -297,3 +297,44 @@ func genRemarkBlockPair(r *RNG) (a, b []absLine) {
 	b = append(b, last...)
 	return distinctByMkey(a), distinctByMkey(b)
 }
+
+// genMoveDownIntoMixedRun: a line of a block is moved DOWN from the upper part of its block into an insert run
+// that starts with new line(s) of the block's action, continues with a new line of the other action and ends
+// with the moved line; a line above (of the other action, overlapping) is deleted.  The planner must really
+// move the line: the "same block above the insert position" shortcut does not apply behind the other-action line.
+func genMoveDownIntoMixedRun(r *RNG) (a, b []absLine) {
+	blk, oth := "deny", "permit"
+	if r.Chance(35) {
+		blk, oth = oth, blk
+	}
+	mk := func(act string, src int, proto string, port int) absLine {
+		return absLine{Act: act, Proto: proto, Src: src, Port: port}
+	}
+	gone := mk(oth, 3, "ip", 0)   // decides host 10.1.2.3 in the old ACL, deleted
+	moved := mk(blk, 2, "ip", 0)  // 10.1.2.0/24, moved down
+	newOth := mk(oth, 1, "ip", 0) // 10.1.0.0/16, new, in front of the moved line
+	if r.Chance(30) {
+		gone.Proto, moved.Proto, newOth.Proto = "tcp", "tcp", "tcp"
+	}
+	fill := func(n int, ports []int) []absLine {
+		var l []absLine
+		for i := 0; i < n; i++ {
+			l = append(l, mk(blk, Pick(r, []int{4, 5}), Pick(r, []string{"tcp", "udp"}), ports[i%len(ports)]))
+		}
+		return l
+	}
+	mid := fill(1+r.Intn(2), []int{22, 53})
+	newSame := fill(1+r.Intn(2), []int{80})
+	tail := fill(r.Intn(2), []int{53, 22})
+	last := []absLine{mk(oth, 0, "ip", 0)}
+	a = append(a, gone, moved)
+	a = append(a, mid...)
+	a = append(a, tail...)
+	a = append(a, last...)
+	b = append(b, mid...)
+	b = append(b, newSame...)
+	b = append(b, newOth, moved)
+	b = append(b, tail...)
+	b = append(b, last...)
+	return distinctByMkey(a), distinctByMkey(b)
+}
